@@ -38,12 +38,17 @@ sys.path.insert(0, HERE)
 
 
 def _read_exact(n):
-    buf = b""
-    while len(buf) < n:
-        chunk = PROTO_IN.read(n - len(buf))
-        if not chunk:
+    # One allocation of exactly n bytes whatever way the pipe happens to chunk
+    # the message: concatenating chunks would allocate objects whose number and
+    # sizes depend on timing, and with them every later object address.
+    buf = bytearray(n)
+    view = memoryview(buf)
+    got = 0
+    while got < n:
+        k = PROTO_IN.readinto(view[got:])
+        if not k:
             raise EOFError
-        buf += chunk
+        got += k
     return buf
 
 
@@ -91,14 +96,23 @@ def main():
     from simkit import fleet_ops
     fleet_ops.PIPE = (send, recv)
     state = fleet_ops.State()
-    send(("ready", {"pid": os.getpid(),
-                    "hashseed": os.environ.get("PYTHONHASHSEED"),
+    # (no pid in here: a pid below 65536 pickles two bytes shorter than a
+    # larger one, which is enough to shift later allocations -- found when an
+    # address-dependent finding would not replay)
+    send(("ready", {"hashseed": os.environ.get("PYTHONHASHSEED"),
                     "pytato": pytato.__file__}))
     while True:
         try:
-            cmd, kwargs = recv()
+            msg = recv()
         except EOFError:
             return
+        if len(msg) == 3:
+            import json
+            cmd = msg[0]
+            kwargs = json.loads(msg[1])
+            kwargs.update(dict(msg[2]))
+        else:
+            cmd, kwargs = msg
         if cmd == "quit":
             send(("ok", None))
             return
